@@ -195,6 +195,19 @@ CHECKS = {
              "no exhaustive exploration of the election protocol",
         technique="TLA+ reference monitor + TLC trace validation of real election runs under a controlled scheduler",
         design="DESIGN.md §5 C07"),
+    "C05": dict(
+        level="model_checking",
+        text="In the cluster simulator a secondary is killed and restarted (empty disk / older snapshot / "
+             "clean declutter) and rejoins through the real join, set-primary and replicate-since handshake; "
+             "the primary's history (multi-word, numeric-first and empty values, removes, increments, a "
+             "database created while away) is split at random points into before / while-away / during-sync "
+             "parts, the writes during the synchronisation interleaved with the catch-up deliveries; TLC "
+             "validates the trace against Trace_Cluster group CONV at the quiescence after the rejoin.",
+        note="the recorded catch-up defects are covered by one deviation for the rejoined node's data: for that "
+             "node the check still decides termination, absence of other panics and convergence of every "
+             "other node, not byte-exact resynchronisation",
+        technique="TLA+ reference monitor + TLC trace validation of real rejoin runs on simulated links",
+        design="DESIGN.md §5 C05"),
 }
 
 NOT_YET = "check not built yet (build in progress; see DESIGN.md §8 build order)"
